@@ -26,7 +26,7 @@ theorem C07_source_extents_to_cells (e : List Int) :
   · rfl
   · rfl
   · simp only [Gen.c07ExtentsToCellsSrc, intList, natList, C07.cellsPerDirection]
-    pylite_eval
+    pylite_eval [indexOf]
     by_cases h1 : a1 - a0 < 0
     · simp [h1]
     · by_cases h2 : b1 - b0 < 0
